@@ -4,5 +4,7 @@ from .c07 import run_algo, replay  # noqa
 
 def run(tier, seed):
     res = run_algo("C08", "mpr", tier, seed)
+    from .. import mprloop
+    mprloop.run(res, tier, seed, mc=True, modes=("penetration",))     # portal explorer Mpr.tla: model checking + stateful trace validation
     res.assumptions = ["exact tier: penetration depth from the certified closest facet; round shapes: residual overlap refuted only by a deep witness point"]
     return res
